@@ -1,0 +1,8 @@
+//go:build !verif
+
+package ro
+
+// verifPoint marks a named point of interest for the runtime-verification
+// harness. Without the `verif` build tag it is an empty function that the
+// compiler inlines away.
+func verifPoint(string) {}
